@@ -372,7 +372,7 @@ def _resolve_zerocopy(m):
     return {"type": "http.response.body", "body": data, "more_body": bool(m.get("more_body", False)), "zerocopy": True}
 
 
-def run_asgi(app, scope, messages, monitor=True, send_fail_at=None, horizon=200000):
+def run_asgi(app, scope, messages, monitor=True, send_fail_at=None, horizon=200000, disconnect_type="http.disconnect"):
     """Run an ASGI http app under the default schedule of the virtual loop.
     receive() hands out `messages` in order; after they are exhausted it stays pending until nothing else can run,
     then returns http.disconnect (and on every later call). send_fail_at=n: the n-th send (0-based) raises OSError."""
@@ -386,14 +386,14 @@ def run_asgi(app, scope, messages, monitor=True, send_fail_at=None, horizon=2000
             if state["i"] < len(msgs):
                 m = msgs[state["i"]]
                 state["i"] += 1
-                if m["type"] == "http.disconnect":
+                if m["type"] == disconnect_type:
                     state["disconnected"] = True
                     state["i"] = len(msgs)
                 return dict(m)
             if not state["disconnected"]:
                 await s.env.gate("disconnect")
                 state["disconnected"] = True
-            return {"type": "http.disconnect"}
+            return {"type": disconnect_type}
 
         async def send(message):
             n = state["sends"]
